@@ -262,7 +262,7 @@ func (ri *reflectInspector) checkFunction(fun *ssa.Function) {
 	for _, block := range fun.Blocks {
 		for _, inst := range block.Instrs {
 			if ri.propagatedInstr[inst] {
-				break // already done
+				continue // already done
 			}
 
 			// fmt.Printf("inst: %v, t: %T\n", inst, inst)
